@@ -69,6 +69,36 @@ Proof.
   cbn [bind]. reflexivity.
 Qed.
 
+Lemma t1_of_shape rho A s1 s2 : ExpandA H P rho = Some A ->
+  rvec (p_eta P) (p_eta P) (p_l P) s1 -> rvec (p_eta P) (p_eta P) (p_k P) s2 -> rvec 0 1023 (p_k P) (t1_of A s1 s2).
+Proof.
+  intros EA R1 R2. destruct (ExpandA_shape H HL P _ _ EA) as [LA RA].
+  assert (L1 : Forall (fun p => length p = 256%nat) s1) by (eapply Forall_impl; [|apply R1]; intros p Hp; apply Hp).
+  destruct (MatrixVectorNTT_rows (p_l P) A (vNTT s1) ltac:(exact RA) (vNTT_rows _ L1)) as [Lm Lml].
+  destruct (vinvNTT_shape _ Lm) as [Sv Lv].
+  assert (Ht : Forall (fun p => length p = 256%nat /\ Forall (fun x => 0 <= x < Q) p) (t_of A s1 s2) /\ length (t_of A s1 s2) = p_k P).
+  { unfold t_of, vadd. split.
+    - apply (map2_Forall padd (fun p => length p = 256%nat /\ Forall (fun x => 0 <= x < Q) p) (fun p => length p = 256%nat)).
+      + intros a b [La _] Lb. split; [apply padd_length; assumption|apply padd_range].
+      + exact Sv.
+      + rewrite Forall_map. destruct R2 as [R2 _]. eapply Forall_impl; [|exact R2]. intros p [Lp _]. rewrite map_length. exact Lp.
+    - rewrite map2_length, Lv, Lml, map_length, LA. destruct R2 as [_ ->]. lia. }
+  unfold t1_of. split; [|rewrite map_length; apply Ht].
+  destruct Ht as [Ht _]. rewrite Forall_map. eapply Forall_impl; [|exact Ht]. intros p [Lp Rp]. split; [rewrite map_length; exact Lp|].
+  rewrite Forall_map. eapply Forall_impl; [|exact Rp]. intros r Hr. change (- 0) with 0. apply (Power2Round_ranges r Hr).
+Qed.
+
+(* derivation never panics on a represented key *)
+Theorem derive_no_panic sk rho K tr s1 s2 t0 : zlen rho = 32 -> sk_repr P sk rho K tr s1 s2 t0 ->
+  is_panic (get_public_key H P sk) = false.
+Proof.
+  intros Lr Hrep. rewrite (derive_refines sk rho K tr s1 s2 t0 Lr Hrep).
+  destruct (ExpandA H P rho) as [A|] eqn:EA; [|reflexivity].
+  destruct Hrep as (_ & _ & _ & _ & _ & _ & R1 & R2 & _).
+  destruct (build_pk_repr P rho tr _ (t1_of_shape rho A s1 s2 EA R1 R2)) as (a & Ea & _).
+  unfold pk_of. rewrite Ea. reflexivity.
+Qed.
+
 (* generated key pairs *)
 Theorem derive_generated xi pk sk : key_gen_internal H false P xi = Ok (pk, sk) -> get_public_key H P sk = Ok pk.
 Proof.
